@@ -145,6 +145,8 @@ def decode_saved(text, fl):
                 e["d"] = -1
             if "data_id" in full:
                 e["xid"] = fl.model_did(full["data_id"])
+                if fl.calc_data_id() is not None and e["xid"] == fl.model_default_did(e["d"]):
+                    e["xid"] = 0     # a tree with an id callback stores every id; "explicit" means: not the callback's
             if "kind" in full:
                 e["k"] = flavours.KIND_IDS.get(full["kind"], -1)
         out.append(e)
@@ -256,12 +258,14 @@ def obs_serial(c: Ctx, enc, *, props, quick=True, salt=0, tmpdir=None):
                 res = []
                 for it in items:
                     if is_item:
-                        d = fl.data_index(Item(it["name"], it["rank"])) if "name" in it else -1
+                        d = fl.index_of_fields(it["name"], it.get("rank")) if "name" in it else -1
                     else:
                         d = fl.data_index(it["data"])
                     if not isinstance(it["data"], str):
                         raise TypeError("data is not the string form")
                     xid = fl.model_did(it["data_id"]) if "data_id" in it else (fl.model_did(it["guid"]) if "guid" in it else 0)
+                    if fl.calc_data_id() is not None and xid == fl.model_default_did(d):
+                        xid = 0      # a tree with an id callback carries every id; "explicit" means: not the callback's
                     extra = set(it) - {"data", "data_id", "children", "name", "rank", "guid"}
                     if extra:
                         raise TypeError(f"unexpected keys {extra}")
@@ -274,14 +278,17 @@ def obs_serial(c: Ctx, enc, *, props, quick=True, salt=0, tmpdir=None):
         # serialize mapper style: mutate-and-return vs. returning a new dict (both documented)
         ser = (ser_mapper if salt % 2 == 0 else (lambda node, data: ser_mapper(node, dict(data)))) if is_item else None
         deser = (lambda parent, item: Item(item["name"], item["rank"])) if is_item else None
-        if is_item and salt % 3 == 1:
+        own = hasattr(fl, "lib_mappers")     # the flavour brings its mapper pair
+        if own:
+            ser, deser = fl.lib_mappers
+        if is_item and not own and salt % 3 == 1:
             # a serialiser that builds its result from scratch (only the fields it knows about)
             def ser(node, data):   # noqa: F811
                 out = {"data": data["data"], "name": node.data.name, "rank": node.data.rank}
                 if "data_id" in data:
                     out["data_id"] = data["data_id"]
                 return out
-        relocate = is_item and salt % 3 == 0
+        relocate = is_item and not own and salt % 3 == 0
         if relocate:
             # an inverse mapper pair that keeps the id under a domain key: the serialiser moves data_id to 'guid',
             # the deserialiser restores it by setting item['data_id'] ("mapper may add item['data_id']")
